@@ -207,7 +207,12 @@ def classify(it, r, deliberate):
                 undelib.append(e)
         if undelib:
             e = undelib[0]
-            out.append(('reject-valid:%s:%s' % (e.get('phase') or 'unknown-phase', norm_msg(e['msg'])),
+            phase = e.get('phase') or 'unknown-phase'
+            if it.get('family') == 'valid-hostile' and phase.startswith('Analyse'):
+                # programs of the 'hostile' profile apply operators, calls, subscripts and unpacking to literals of
+                # the wrong type: the analysis phases report at compile time what CPython raises at run time
+                phase += ':hostile-literal-operands'
+            out.append(('reject-valid:%s:%s' % (phase, norm_msg(e['msg'])),
                         'CPython compiles the input, Cython rejects it: %s:%s: %s' % ((e.get('pos') or [0, '?', '?'])[1],
                                                                                        (e.get('pos') or [0, '?', '?'])[2], e['msg'][:200])))
             return 'rejected-valid', out
@@ -222,7 +227,7 @@ def main(ck):
     rng = ck.rng('inputs')
     # ------------------------------------------------------------------ (a) generator of valid programs
     scale = float(os.environ.get('VERIF_C43_SCALE', '1'))     # development aid
-    n_valid = int(ck.pick(240, 1500) * scale)
+    n_valid = int(ck.pick(160, 1200) * scale)
     gen_rejected = 0
     kinds = {}
     small = []
@@ -243,7 +248,7 @@ def main(ck):
     for cat, t in I.DIRECTED:
         inputs.add('directed', cat, t)
     # ------------------------------------------------------------------ (c) mutated and truncated texts
-    n_mut = int(ck.pick(500, 4000) * scale)
+    n_mut = int(ck.pick(300, 3000) * scale)
     seeds = small + [t for c, t in I.DIRECTED]
     for i in range(n_mut):
         base = seeds[i % len(seeds)]
@@ -253,7 +258,7 @@ def main(ck):
     for t in small[:ck.pick(3, 12)]:
         cuts = I.truncations(t, every=1)
         rng.shuffle(cuts)
-        for cut in cuts[:ck.pick(40, 60)]:
+        for cut in cuts[:ck.pick(25, 50)]:
             inputs.add('truncated', 'token-boundary', cut)
             ntr += 1
     # ------------------------------------------------------------------ (d) corpus (thorough)
@@ -317,10 +322,10 @@ def main(ck):
     crng = ck.rng('gcc')
     ok_small = [x for x in ok_items if x[1].get('c') and os.path.exists(x[1]['c'])]
     crng.shuffle(ok_small)
-    nsyn = ck.pick(48, 1200)
+    nsyn = ck.pick(36, 600)
     pick = ok_small[:nsyn]
     # always include the stress programs that translated
-    pick += [x for x in ok_small[nsyn:] if x[0]['family'] in ('literal', 'directed')][:ck.pick(60, 400)]
+    pick += [x for x in ok_small[nsyn:] if x[0]['family'] in ('literal', 'directed')][:ck.pick(40, 300)]
     c_checked = c_rejected = 0
     from concurrent.futures import ThreadPoolExecutor
 
